@@ -115,8 +115,9 @@ def eval_object(obj, env):
     """Value of a kingdon polynomial object at a point, from its *structure*. Returns Fraction | None (pole)."""
     from kingdon.polynomial import Polynomial, RationalPolynomial
     if isinstance(obj, RationalPolynomial):
-        n = eval_poly_args(obj.numer.args, env)
-        dn = eval_poly_args(obj.denom.args, env)
+        # numerator / denominator are Polynomial objects; a bare number in their place still denotes that number
+        n = eval_poly_args(obj.numer.args, env) if hasattr(obj.numer, 'args') else Fr(obj.numer)
+        dn = eval_poly_args(obj.denom.args, env) if hasattr(obj.denom, 'args') else Fr(obj.denom)
         if dn == 0:
             return None
         return n / dn
@@ -285,6 +286,8 @@ def run_shard(shard, ctx):
             ctx.count('trees_skipped_out_of_time')
             break
         one_tree(ctx, rng)
+        if t % 6 == 0:
+            polynomial_tree(ctx, rng)
 
 
 CODEGEN_OPS = ['sw', 'proj', 'normsq', 'inv', 'outerexp', 'outersin', 'outercos', 'gp*gp', 'polarity']
@@ -494,6 +497,77 @@ def identity_cases(ctx, rng, made, cid):
         ctx.note_raised(e, 'identity-eq')
 
 
+def poly_build(rng, depth, made):
+    """Random expression over kingdon.polynomial.Polynomial objects (the class underneath RationalPolynomial, public and usable on its
+    own): returns (object, reference pair, source text)."""
+    from kingdon.polynomial import Polynomial
+    if depth == 0 or rng.random() < 0.22:
+        if rng.random() < 0.7:
+            v = rng.choice(VARS)
+            out = (Polynomial.fromname(v), r_var(v), v)
+        else:
+            c = rng.choice([0, 1, -1, 2, -3, 5])
+            out = (Polynomial(c), r_const(c), f'P({c})')
+        made.append(out)
+        return out
+    kind = rng.choice(['add', 'sub', 'sub', 'mul', 'neg', 'pow', 'radd', 'rsub', 'rmul', 'numsub', 'selfsub', 'mulzero', 'cancel'])
+    x, rx, sx = poly_build(rng, depth - 1, made)
+    if kind in ('add', 'sub', 'mul'):
+        y, ry, sy = poly_build(rng, depth - 1, made)
+        if kind == 'add':
+            out = (x + y, r_add(rx, ry), f'({sx} + {sy})')
+        elif kind == 'sub':
+            out = (x - y, r_add(rx, r_neg(ry)), f'({sx} - {sy})')
+        else:
+            out = (x * y, r_mul(rx, ry), f'({sx} * {sy})')
+    elif kind == 'neg':
+        out = (-x, r_neg(rx), f'(-{sx})')
+    elif kind == 'pow':
+        n = rng.randint(1, 3)
+        out = (x ** n, r_pow(rx, n), f'({sx} ** {n})')
+    elif kind in ('radd', 'rsub', 'rmul', 'numsub'):
+        c = rng.choice([0, 1, -1, 2, -3, 4])
+        if kind == 'radd':
+            out = (c + x, r_add(r_const(c), rx), f'({c} + {sx})')
+        elif kind == 'rsub':
+            out = (c - x, r_add(r_const(c), r_neg(rx)), f'({c} - {sx})')
+        elif kind == 'numsub':
+            out = (x - c, r_add(rx, r_neg(r_const(c))), f'({sx} - {c})')
+        else:
+            out = (c * x, r_mul(r_const(c), rx), f'({c} * {sx})')
+    elif kind == 'selfsub':
+        # an object that denotes zero without being the literal empty polynomial, used as an operand further up
+        out = (x - x, r_add(rx, r_neg(rx)), f'({sx} - {sx})')
+    elif kind == 'mulzero':
+        out = (x * 0, r_mul(rx, r_const(0)), f'({sx} * 0)')
+    else:
+        one = Polynomial(1)
+        out = ((x + one) * (x - one) - x * x + one, r_const(0), f'(({sx} + 1) * ({sx} - 1) - {sx} * {sx} + 1)')
+    made.append(out)
+    return out
+
+
+def polynomial_tree(ctx, rng):
+    from kingdon.polynomial import Polynomial
+    made = []
+    try:
+        obj, ref, src = poly_build(rng, rng.randint(1, 4), made)
+    except OutOfDomain:
+        return
+    except Exception as e:
+        ctx.note_raised(e, 'polynomial-tree')
+        return
+    cid = ['polynomial-level', src]
+    if not ctx.want(cid):
+        return
+    ctx.count('polynomial_level_trees')
+    ctx.case(cid, nontrivial=len(made) > 1)
+    for o, r, s_ in made[-6:]:
+        if isinstance(o, Polynomial):
+            ctx.count('polynomial_level_objects_checked')
+            check_object(ctx, rng, o, r, s_, cid)
+
+
 def check_object(ctx, rng, obj, ref, src, cid):
     from kingdon.polynomial import Polynomial, RationalPolynomial
     iszero = r_iszero(ref)
@@ -540,6 +614,8 @@ def check_object(ctx, rng, obj, ref, src, cid):
             got = eval_object(obj, env)
         except Exception as e:
             ctx.note_raised(e, 'structure')
+            if len(ctx.notes) < 4:
+                ctx.notes.append(f'structure not evaluable: {type(e).__name__}: {e} | expression {src[:200]} | object {repr(obj)[:300]}')
             return
         if got is None:
             # the object has a pole where the reference function is finite: a spurious common factor vanished here; try another point
@@ -551,12 +627,20 @@ def check_object(ctx, rng, obj, ref, src, cid):
             ctx.violation('object denotes a different rational function', cid + ['value', src], expression=src, object=structure(obj),
                           point={k: str(v) for k, v in env.items()}, got=str(got), expected=str(want))
             return
-        if npts == 1 and rng.random() < 0.12 and isinstance(obj, (Polynomial, RationalPolynomial)):
+        bare = isinstance(obj, RationalPolynomial) and not (hasattr(obj.numer, 'args') and hasattr(obj.denom, 'args'))
+        if bare:
+            ctx.count('objects_with_a_bare_number_as_numerator_or_denominator')
+        if npts == 1 and (bare or rng.random() < 0.12) and isinstance(obj, (Polynomial, RationalPolynomial)):
             try:
                 gs = eval_sympy(obj, env)
             except Exception as e:
                 ctx.note_raised(e, 'tosympy')
                 gs = 'skip'
+                # the operators returned this object and it denotes the right function at this point (checked above from its structure):
+                # "conversion to sympy preserves the function" has no value to offer here
+                ctx.violation('tosympy() raises on an object returned by the operators', cid + ['sympy-raises', src], expression=src, object=structure(obj),
+                              error=f'{type(e).__name__}: {str(e)[:160]}', value_from_structure=str(got))
+                return
             if gs != 'skip' and gs is not None:
                 ctx.count('objects_evaluated_via_sympy')
                 if gs != want and abs(gs - want) > Fr(1, 10 ** 9) * max(1, abs(want)):
